@@ -179,8 +179,15 @@ class Capture:
         cap = self
         A = RA.GraphColoringRegisterAllocator
         G = RA.MiniGen
-        self._saved = (A.alloc_frame, A.rewrite_program, A.remove_redundant_moves, G.gen_load, G.gen_store)
-        o_alloc, o_rw, o_rm, o_ld, o_st = self._saved
+        from ppci.arch.stack import Frame
+        self._saved = (A.alloc_frame, A.rewrite_program, A.remove_redundant_moves, G.gen_load, G.gen_store, Frame.alloc)
+        o_alloc, o_rw, o_rm, o_ld, o_st, o_falloc = self._saved
+        cap.allocs = {}
+
+        def frame_alloc(self, size, alignment):
+            loc = o_falloc(self, size, alignment)
+            cap.allocs.setdefault(id(self), []).append((self, loc))     # keeps the frame alive, so the id stays unique
+            return loc
 
         def alloc_frame(self, frame):
             rec = FrameRecord(self.arch, frame)
@@ -188,6 +195,7 @@ class Capture:
             try:
                 o_alloc(self, frame)
                 rec.final = snap(frame.instructions)
+                rec.slots = [loc for (_f, loc) in cap.allocs.get(id(frame), [])]
             except Exception as e:  # allocator gave up / crashed: recorded, re-raised
                 rec.error = f"{type(e).__name__}: {e}"
                 raise
@@ -230,13 +238,15 @@ class Capture:
 
         A.alloc_frame, A.rewrite_program, A.remove_redundant_moves = alloc_frame, rewrite_program, remove_redundant_moves
         G.gen_load, G.gen_store = gen_load, gen_store
+        Frame.alloc = frame_alloc
         return self
 
     def __exit__(self, *exc):
         from ppci.codegen import registerallocator as RA
         A = RA.GraphColoringRegisterAllocator
         G = RA.MiniGen
-        A.alloc_frame, A.rewrite_program, A.remove_redundant_moves, G.gen_load, G.gen_store = self._saved
+        from ppci.arch.stack import Frame
+        A.alloc_frame, A.rewrite_program, A.remove_redundant_moves, G.gen_load, G.gen_store, Frame.alloc = self._saved
         return False
 
 
@@ -779,6 +789,22 @@ class SpillShape(Exception):
         self.kind = kind
 
 
+def check_slot_new(rec, rw):
+    """the slot of this rewrite shares no byte with any other stack allocation of the frame (allocas, other spill slots)"""
+    slot = rw["slot"]
+    if slot is None:
+        return                                              # nothing was loaded or stored
+    mine = [k for k, l in enumerate(rec.slots) if l is slot]
+    if len(mine) != 1:
+        raise SpillShape("slot-not-allocated-by-this-frame", f"spill slot {slot} was not returned by exactly one Frame.alloc call")
+    for l in rec.slots:
+        if l is not slot and l.offset < slot.offset + slot.size and slot.offset < l.offset + l.size:
+            raise SpillShape("slot-overlaps-other-allocation", f"spill slot {slot} overlaps {l}")
+    for other in rec.rewrites:
+        if other is not rw and other["slot"] is slot:
+            raise SpillShape("slot-shared-between-spilled-nodes", f"spill slot {slot} is used by two spilled nodes")
+
+
 def build_spill_case(rw, phys):
     num = Numbering()
     pre, post = rw["pre"], rw["post"]
@@ -845,7 +871,7 @@ def build_spill_case(rw, phys):
                 raise SpillShape("unknown-instruction-inserted", f"{t[0]} was inserted but is not spill code")
             a = abstract_instr(t, num, id(t[0]) in targets)
             a["clob"] = [phys.add(q) for q in a["clob"]]
-            post_words.append(("I", a))
+            post_words.append(["I", a])
             i += 1
             continue
         kind, code, vreg, slot = rw["groups"][gi]
@@ -861,22 +887,54 @@ def build_spill_case(rw, phys):
         else:
             if not any(r is vreg for r in allu) or any(r is vreg for r in alld):
                 raise SpillShape("store-does-not-read-fresh", f"store code does not read {vreg}")
+        scratch = []
         for r in alld + allu:
             if r is vreg:
                 continue
             if r._num is not None:
-                if any(r is x for x in alld):
-                    raise SpillShape("spill-code-writes-physical-register", f"{kind} code for {vreg} writes {r}")
+                if any(r is x for x in alld) and num.v(r) not in scratch:
+                    scratch.append(num.v(r))          # physical scratch register written by the spill code
                 continue
             if used_outside[id(r)]:
                 raise SpillShape("spill-code-temp-leaks", f"{kind} code for {vreg} uses {r} which also occurs outside")
         if slot is not rw["slot"]:
             raise SpillShape("several-slots", "one rewrite used two different slots")
-        post_words.append(("L" if kind == "load" else "S", num.v(vreg)))
+        post_words.append(["L" if kind == "load" else "S", num.v(vreg), scratch])
         i += len(code)
+    # scratch registers: all loads (stores) of one instruction share the union, as Model.RA.expand emits them
+    owner = {}
+    cur = None
+    pend = []
+    for w in post_words:                    # loads belong to the next ordinary instruction, stores to the previous one
+        if w[0] == "L":
+            pend.append(w)
+        elif w[0] == "I":
+            cur = w
+            owner[id(w)] = {"L": pend, "S": []}
+            pend = []
+        else:
+            if cur is None:
+                raise SpillShape("store-before-any-instruction", "store code at the start of the list")
+            owner[id(cur)]["S"].append(w)
+    if pend:
+        raise SpillShape("load-after-last-instruction", "load code at the end of the list")
+    scr = {}
+    for w in post_words:
+        if w[0] == "I":
+            o = owner[id(w)]
+            lu = sorted({z for x in o["L"] for z in x[2]})
+            su = sorted({z for x in o["S"] for z in x[2]})
+            for x in o["L"]:
+                x[2] = lu
+            for x in o["S"]:
+                x[2] = su
+            scr[w[1]["sem"]] = (lu, su)
+    plans = [(pl,) + scr.get(pre_abs[k]["sem"], ([], [])) for k, pl in enumerate(plans)]
     live = liveness(pre_abs)
+    fixed = [v for v, r in enumerate(num.vobj) if r._num is not None]
+    colour = [phys.add(r) if r._num is not None else 0 for r in num.vobj]
     return {"pre": pre_abs, "post": post_words, "temps": [num.v(t) for t in temps], "fresh": sorted(set(fresh)),
-            "plans": plans, "live": live, "num": num}
+            "plans": plans, "live": live, "num": num, "fixed": fixed, "colour": colour, "pairs": phys.overlap_pairs()}
 
 
 # --------------------------------------------------------------------------------------
@@ -890,7 +948,7 @@ def instr_word(a, live=(), plan=None):
     w = ";".join([csv(a["uses"]), csv(a["defs"]), csv(a["clob"]), csv(a["jumps"]), "1" if a["move"] else "0",
                   "-" if a["label"] is None else str(a["label"]), str(a["sem"]), csv(live)])
     if plan is not None:
-        w += ";" + ",".join(f"{t}:{f}" for t, f in plan)
+        w += ";" + ",".join(f"{t}:{f}" for t, f in plan[0]) + ";" + csv(plan[1]) + ";" + csv(plan[2])
     return w
 
 
@@ -901,8 +959,336 @@ def alloc_line(case):
 
 
 def spill_line(sc):
-    words = ["spill", "T=" + csv(sc["temps"]), "F=" + csv(sc["fresh"]), f"N={len(sc['pre'])}"]
+    words = ["spill", "A=" + ",".join(f"{p}:{q}" for p, q in sc["pairs"]), "C=" + csv(sc["colour"]), "X=" + csv(sc["fixed"]),
+             "T=" + csv(sc["temps"]), "F=" + csv(sc["fresh"]), f"N={len(sc['pre'])}"]
     words += [instr_word(a, sc["live"][i], sc["plans"][i]) for i, a in enumerate(sc["pre"])]
-    for k, x in sc["post"]:
-        words.append(k + (instr_word(x) if k == "I" else str(x)))
+    for w in sc["post"]:
+        words.append("I" + instr_word(w[1]) if w[0] == "I" else f"{w[0]}{w[1]}/{csv(w[2])}")
     return " ".join(words)
+
+
+# --------------------------------------------------------------------------------------
+# locating a rejection: the instruction, the two values, and a path entry -> clobber -> read
+# --------------------------------------------------------------------------------------
+def witness_path(prog, i, v):
+    """shortest control-flow path from the entry to instruction i, and from i to a read of v with no redefinition"""
+    n = len(prog)
+    lp = label_positions(prog)
+    prev = {0: None}
+    todo = [0]
+    while todo and i not in prev:
+        nxt = []
+        for a in todo:
+            for b in succs(prog, lp, a):
+                if b < n and b not in prev:
+                    prev[b] = a
+                    nxt.append(b)
+        todo = nxt
+    to_i = []
+    if i in prev:
+        k = i
+        while k is not None:
+            to_i.append(k)
+            k = prev[k]
+        to_i.reverse()
+    prev2 = {}
+    todo = [b for b in succs(prog, lp, i) if b < n]
+    for b in todo:
+        prev2[b] = i
+    read_at = None
+    while todo and read_at is None:
+        nxt = []
+        for a in todo:
+            if v in prog[a]["uses"]:
+                read_at = a
+                break
+            if v in prog[a]["defs"]:
+                continue
+            for b in succs(prog, lp, a):
+                if b < n and b not in prev2:
+                    prev2[b] = a
+                    nxt.append(b)
+        todo = nxt
+    to_read = []
+    if read_at is not None:
+        k = read_at
+        while k != i:
+            to_read.append(k)
+            k = prev2[k]
+        to_read.reverse()
+    return to_i, to_read
+
+
+def diagnose(case, texts, problems):
+    out = []
+    for kind, i, d in problems[:3]:
+        item = {"kind": kind, "index": i, "instruction": texts[i] if i < len(texts) else "?"}
+        if isinstance(d, tuple):
+            a, v = d
+            if kind == "clobber-hits-live":
+                item["clobbered_register"] = case["pnames"][a]
+            else:
+                item["written_value"] = case["names"][a]
+                item["written_register"] = case["pnames"][case["colour"][a]]
+            item["live_value"] = case["names"][v]
+            item["live_value_register"] = case["pnames"][case["colour"][v]]
+            to_i, to_read = witness_path(case["prog"], i, v)
+            item["path_entry_to_clobber"] = to_i[-12:]
+            item["path_clobber_to_read"] = to_read[:12]
+            if to_read:
+                item["read_by"] = texts[to_read[-1]]
+        elif d is not None:
+            item["value"] = case["names"][d]
+        out.append(item)
+    return out
+
+
+# --------------------------------------------------------------------------------------
+# jobs (run in worker processes)
+# --------------------------------------------------------------------------------------
+class _Timeout(Exception):
+    pass
+
+
+def safe_str(ins):
+    try:
+        return str(ins)
+    except Exception:  # e.g. riscv registers have no from_num: printing a coloured vreg raises
+        return type(ins).__name__
+
+
+def _on_alarm(*a):
+    raise _Timeout()
+
+
+def job_source(job):
+    """(kind, payload) for a job; deterministic in job['seed']"""
+    import random
+    arch = job["arch"]
+    rng = random.Random(job["seed"])
+    if job["kind"] == "corpus":
+        return "c", CORPUS[job["n"]][1]
+    if job["kind"] == "c":
+        g = CGen(rng, PALETTE[arch], nvals=rng.randint(4, 16), nblocks=rng.randint(1, 5))
+        return "c", g.program(rng.randint(1, 2))
+    g = IRGen(rng, IRFEAT[arch])
+    if arch == "m68k":
+        return "ir", g.module(nvals=rng.randint(1, 3), nsegs=rng.randint(0, 2))
+    big = job.get("big", False)
+    return "ir", g.module(nvals=rng.randint(10, 24) if big else rng.randint(3, 14), nsegs=rng.randint(2, 7) if big else rng.randint(1, 5))
+
+
+def run_job(job):
+    """compile one program under capture; return request lines + metadata (picklable)"""
+    import signal
+    from ppci.api import cc, ir_to_object, get_arch
+    res = {"job": job, "lines": [], "metas": [], "stats": collections.Counter(), "notes": []}
+    st = res["stats"]
+    try:
+        arch = get_arch(job["arch"])
+        kind, payload = job_source(job)
+    except Exception as e:  # generator trouble is a tooling problem
+        res["notes"].append(f"generator failed for {job}: {type(e).__name__}: {e}")
+        st["generator_error"] += 1
+        return res
+    import contextlib
+    import logging
+    logging.disable(logging.CRITICAL)           # ppci logs C warnings ("Function does not return a value") to stderr
+    old = signal.signal(signal.SIGALRM, _on_alarm)
+    with Capture() as cap, contextlib.redirect_stdout(io.StringIO()):
+        try:
+            signal.alarm(job.get("timeout", 40))
+            if kind == "c":
+                cc(io.StringIO(payload), arch, opt_level=job.get("opt", 0))
+            else:
+                ir_to_object([payload], arch)
+            st["compiled"] += 1
+        except _Timeout:
+            st["compile_timeout"] += 1
+        except Exception as e:
+            st["compile_error:" + type(e).__name__] += 1
+        finally:
+            signal.alarm(0)
+            signal.signal(signal.SIGALRM, old)
+    for rec in cap.records:
+        if rec.error is not None or rec.final is None:
+            st["allocator_gave_up"] += 1
+            continue
+        base = {"arch": job["arch"], "job": job, "frame": rec.name}
+        try:
+            phys = PhysTable(arch)
+            case = build_alloc_case(rec, phys)
+        except (CaptureArtefact, LookupError, AssertionError) as e:
+            res["metas"].append(dict(base, kind="artefact", what=f"{type(e).__name__}: {e}"))
+            res["lines"].append(None)
+            continue
+        texts = [f"{k}: {safe_str(t[0])}" for k, t in enumerate(rec.snapF)]
+        ov = make_ov(case["pairs"])
+        probs = ref_check(case["prog"], case["colour"], ov, case["removed"], case["live"], set(case["fixed"]))
+        used = {case["colour"][v] for a in case["prog"] for v in a["uses"] + a["defs"]}
+        alias_in_use = any((p, q) in {(x, y) for x, y in case["pairs"]} for p in used for q in used if p < q)
+        meta = dict(base, kind="alloc", n=len(case["prog"]), rewrites=len(rec.rewrites), removed=sum(case["removed"]),
+                    maxlive=max([len(l) for l in case["live"]] or [0]), alias_in_use=alias_in_use,
+                    ref=[p[0] for p in probs[:5]], declared_moves_not_wf=sum(1 for a in case["prog"] if a["declared_move"] and not a["move"]))
+        if probs:
+            meta["diag"] = diagnose(case, texts, probs)
+        res["lines"].append(alloc_line(case))
+        res["metas"].append(meta)
+        for k, rw in enumerate(rec.rewrites):
+            sb = dict(base, kind="spill", step=k, temps=[t.name for t in rw["temps"]])
+            try:
+                check_slot_new(rec, rw)
+                sc = build_spill_case(rw, phys)
+            except SpillShape as e:
+                res["lines"].append(None)
+                res["metas"].append(dict(sb, kind="spill-shape", shape=e.kind, what=str(e)))
+                continue
+            except CaptureArtefact as e:
+                res["lines"].append(None)
+                res["metas"].append(dict(sb, kind="artefact", what=str(e)))
+                continue
+            sb["scratch"] = any(w[0] != "I" and w[2] for w in sc["post"])
+            sb["multi_temp"] = len(rw["temps"]) > 1
+            sb["n"] = len(sc["pre"])
+            res["lines"].append(spill_line(sc))
+            res["metas"].append(sb)
+    return res
+
+
+def make_jobs(ctx):
+    targets = ALL_TARGETS if ctx.thorough else QUICK_TARGETS
+    jobs = []
+    for arch in targets:
+        if arch in PALETTE:
+            for n in range(len(CORPUS)):
+                if n == 1 and arch not in ("x86_64", "riscv", "riscv:rvc"):
+                    continue
+                for opt in (0, 2):
+                    jobs.append({"arch": arch, "kind": "corpus", "n": n, "opt": opt, "seed": 0})
+    n_ir = 14 if ctx.thorough else 3
+    n_c = 6 if ctx.thorough else 1
+    for arch in targets:
+        tmo = 8 if arch == "m68k" else 60
+        for k in range(n_ir):
+            jobs.append({"arch": arch, "kind": "ir", "seed": ctx.rng.getrandbits(32), "timeout": tmo, "big": k % 3 == 2})
+        if arch in PALETTE:
+            for k in range(n_c):
+                seed = ctx.rng.getrandbits(32)
+                for opt in ((0, 2) if ctx.thorough or arch == "x86_64" else (2,)):
+                    jobs.append({"arch": arch, "kind": "c", "seed": seed, "opt": opt, "timeout": tmo})
+    return jobs
+
+
+def job_id(job):
+    return f"{job['arch']}/{job['kind']}/{job.get('n', job['seed'])}/O{job.get('opt', '-')}"
+
+
+def check(ctx, jobs=None):
+    import multiprocessing as mp
+    from concurrent.futures import ThreadPoolExecutor
+    from harness.common import BrokenCheck
+    if jobs is None:
+        jobs = make_jobs(ctx)
+    t0 = time.time()
+    with mp.get_context("fork").Pool(min(16, mp.cpu_count())) as pool:
+        results = pool.map(run_job, jobs, chunksize=1)
+    t_compile = time.time() - t0
+    lines, metas = [], []
+    for r in results:
+        for k, v in r["stats"].items():
+            ctx.count(k, v)
+        for nt in r["notes"]:
+            ctx.note(nt)
+        for l, m in zip(r["lines"], r["metas"]):
+            if l is None:
+                if m["kind"] == "spill-shape":
+                    ctx.count("eval_spill")
+                    ctx.fail("spill:" + m["shape"], f"{m['arch']} {m['frame']} spill step {m['step']} of {m['temps']}: {m['what']}",
+                             {"job": m["job"], "frame": m["frame"], "step": m["step"]})
+                else:
+                    ctx.count("capture_artefact")
+                    ctx.disagree("capture", {"job": m["job"], "frame": m["frame"]}, m["what"], "expected shape of captured data")
+                continue
+            lines.append(l)
+            metas.append(m)
+    if ctx.counts.get("generator_error"):
+        raise BrokenCheck("program generator failed: " + "; ".join(ctx.notes[-3:]))
+    # ---- the Lean validator -------------------------------------------------------------
+    t1 = time.time()
+    nchunks = max(1, min(6, len(lines) // 40))
+    order = sorted(range(len(lines)), key=lambda k: -len(lines[k]))
+    chunks = [order[c::nchunks] for c in range(nchunks)]
+    replies = [None] * len(lines)
+    with ThreadPoolExecutor(nchunks) as ex:
+        futs = [ex.submit(ctx.driver, "C06", [lines[k] for k in ch]) for ch in chunks]
+        for ch, f in zip(chunks, futs):
+            for k, rep in zip(ch, f.result()):
+                replies[k] = rep
+    t_lean = time.time() - t1
+    archs_seen = collections.Counter()
+    for m, rep in zip(metas, replies):
+        jid = job_id(m["job"])
+        if m["kind"] == "alloc":
+            ctx.count("eval_alloc")
+            ctx.count("instructions", m["n"])
+            ctx.count("coalesced_moves_removed", m["removed"])
+            ctx.count("spill_rewrites", m["rewrites"])
+            archs_seen[m["arch"]] += 1
+            if m["rewrites"] or m["removed"] or m["alias_in_use"]:
+                ctx.nontrivial((jid, m["frame"]))
+            if m["declared_moves_not_wf"]:
+                ctx.count("moves_treated_as_ordinary_instructions", m["declared_moves_not_wf"])
+            ref_ok = not m["ref"]
+            if rep == "ok accept":
+                ctx.count("programs")
+                if not ref_ok:
+                    ctx.disagree("alloc-check", {"job": m["job"], "frame": m["frame"]}, "python reference rejects: " + str(m["ref"]), rep)
+            elif rep.startswith("ok reject"):
+                ctx.count("alloc_rejected")
+                if ref_ok:
+                    ctx.disagree("alloc-check", {"job": m["job"], "frame": m["frame"]}, "python reference accepts", rep)
+                else:
+                    d = m.get("diag", [{}])
+                    ctx.fail("alloc:" + m["ref"][0],
+                             f"{m['arch']} frame {m['frame']} ({jid}): Lean validator: {rep}; {json.dumps(d[0], default=str)}",
+                             {"job": m["job"], "frame": m["frame"]}, lean=rep, diagnosis=d)
+            else:
+                raise BrokenCheck(f"driver answered {rep!r} for an alloc request ({jid} {m['frame']})")
+            ctx.sample({"job": jid, "frame": m["frame"], "instructions": m["n"], "spill_rewrites": m["rewrites"],
+                        "removed_moves": m["removed"], "max_live": m["maxlive"], "lean": rep}, limit=6)
+        else:
+            ctx.count("eval_spill")
+            if m.get("scratch"):
+                ctx.count("spill_steps_with_physical_scratch")
+            if m.get("multi_temp"):
+                ctx.count("spill_steps_of_coalesced_nodes")
+            if rep == "ok accept":
+                ctx.count("spill_steps_validated")
+            elif rep.startswith("ok reject"):
+                what = rep.split()[2] if len(rep.split()) > 2 else "?"
+                sig = "spill:rewrite-differs-from-model" if what == "shape" else ("spill:fresh" if what == "fresh" else "spill:instruction-condition")
+                ctx.fail(sig, f"{m['arch']} frame {m['frame']} ({jid}) spill step {m['step']} of {m['temps']}: Lean validator: {rep}",
+                         {"job": m["job"], "frame": m["frame"], "step": m["step"]}, lean=rep)
+            else:
+                raise BrokenCheck(f"driver answered {rep!r} for a spill request ({jid} {m['frame']})")
+    for a, n in sorted(archs_seen.items()):
+        ctx.count("frames:" + a, n)
+    ctx.extra_cov["targets"] = sorted(archs_seen)
+    ctx.extra_cov["targets_without_frames"] = sorted(set(ALL_TARGETS if ctx.thorough else QUICK_TARGETS) - set(archs_seen))
+    ctx.extra_cov["jobs"] = len(jobs)
+    ctx.extra_cov["request_bytes"] = sum(len(l) for l in lines)
+    ctx.extra_cov["time_compile_s"] = round(t_compile, 1)
+    ctx.extra_cov["time_lean_s"] = round(t_lean, 1)
+    ctx.extra_cov["exhaustive"] = False
+    if not ctx.counts.get("programs") and not ctx.failures:
+        raise BrokenCheck("no frame was validated")
+
+
+def replay(ctx, rp):
+    """re-run exactly the program of a replay file (the job description is its input) against the current tree"""
+    job = (rp.get("case") or {}).get("job")
+    check(ctx, [job] if job else None)
+    for f in ctx.failures:
+        print("REPLAY failure:", f["signature"], f["what"][:600])
+    if not ctx.failures:
+        print("REPLAY: the validator accepts every frame of this program on the current tree")
